@@ -41,6 +41,42 @@ def args_intact(rep, model, names, rule='ARGS-INTACT', params=None, why=''):
             rep.ok(rule, name, f'{f.path}:{f.node.lineno} {name}', found='closed effect summary has no write through ' + ('an argument' if params is None else '/'.join(sorted(params))))
 
 
+DOC_DEFAULT_TEXT = ('an omitted option means its documented default: for every parameter whose docstring line states "default: v", the signature default of the '
+                    'anchored entry point is v (docstring and code are two tables of the same contract; one of them is wrong when they disagree)')
+
+
+def doc_defaults(rep, model, names, rule='DOC-DEFAULT'):
+    """signature default == the default stated on the parameter's numpydoc line, for the named functions"""
+    import ast
+    import re
+    rep.rule(rule, DOC_DEFAULT_TEXT)
+    n = 0
+    for name in names:
+        f = model.funcs.get(name) or model.find(name)
+        doc = ast.get_docstring(f.node) or ''
+        site = f'{f.path}:{f.node.lineno} {f.name}'
+        for ln in doc.splitlines():
+            mo = re.match(r'^\s*(\w+)\s*:\s*(.*)default\s*[:=]\s*(.+?)\s*$', ln)
+            if not mo or mo.group(1) not in f.defaults:
+                continue
+            p, dv = mo.group(1), mo.group(3).rstrip('.')
+            d = f.defaults[p]
+            try:
+                sv = ast.literal_eval(d)
+            except Exception:
+                sv = ast.unparse(d)
+            try:
+                docv = ast.literal_eval(dv)
+            except Exception:
+                docv = dv
+            n += 1
+            if sv == docv or str(sv) == str(docv):
+                rep.ok(rule, f'{f.name}({p})', site, found=f'default {sv!r} as documented')
+            else:
+                rep.violation(rule, f'{f.name}({p})', site, expected=f'documented default {docv!r}', found=f'signature default {sv!r}', key=f'{rule}@{f.mod}:{f.name}:{p}')
+    return n
+
+
 def lost(rep, model, names, rule='EFF-LOST'):
     summ, det, rounds, ro = effects(model)
     for name in names:
